@@ -1,8 +1,17 @@
 use std::slice::Iter;
 use std::vec::IntoIter;
 
-#[derive(Clone, Debug, PartialEq, Eq, PartialOrd, Ord)]
+#[derive(Clone, Debug, Eq, PartialOrd, Ord)]
 pub struct OrderMap<K, V>(Vec<(K, V)>);
+
+/// Two maps are equal if they have the same entries, in any order.
+impl<K: PartialEq, V: PartialEq> PartialEq for OrderMap<K, V> {
+    fn eq(&self, other: &Self) -> bool {
+        self.0.len() == other.0.len()
+            && self.0.iter().all(|e| other.0.contains(e))
+            && other.0.iter().all(|e| self.0.contains(e))
+    }
+}
 
 impl<K: Clone + PartialEq, V: Clone> OrderMap<K, V> {
     pub fn new() -> Self {
